@@ -1,48 +1,819 @@
 package interp
 
-// Lazy initialisation (generalised symbolic execution) of pointer-rich inputs.
+// Lazy initialisation (generalised symbolic execution) of pointer-rich inputs:
+// ASTs, types.Info, go/types objects. A cell of a lazy object holds a
+// *lazyPending until it is first read; reading it creates a fresh symbolic
+// scalar, forks on nil-ness of a pointer / the length of a slice, or creates
+// a lazy interface whose dynamic type is a finite candidate set narrowed by
+// the type assertions the code performs.
 
 import (
+	"fmt"
+	"go/token"
 	"go/types"
+	"sort"
+	"strings"
+	"sync"
 
 	"golang.org/x/tools/go/ssa"
 )
 
+// LazySpec holds the well-formedness tables used when materialising lazy
+// objects. Keys are "<pkgpath>.<Type>.<Field>".
+type LazySpec struct {
+	Nullable  map[string]bool    // pointer / interface / slice fields documented "or nil"
+	MinLen    map[string]int     // minimal slice lengths
+	AlwaysNil map[string]bool    // fields always left nil / zero (e.g. deprecated ast.Object links)
+	IntSet    map[string][]int64 // allowed values of enum-like int fields (tokens)
+	StringRe  map[string]string  // Go regexp a string field must fully match
+	OptPos    map[string]bool    // token.Pos fields that may be NoPos
+	// Universe restricts the candidate dynamic types of an interface
+	// (key: interface type string, e.g. "go/ast.Expr"); nil = all implementers found in the program.
+	Universe map[string][]string
+	// Leaf gives the childless stand-in used beyond the depth bound, per interface.
+	Leaf map[string][]string
+}
+
 type lazyState struct {
 	p *Path
 	n int
+	// basicKind maps cells holding a lazily created *types.Basic struct to its symbolic kind.
+	basicKind map[*value]*Term
+	prot      bool
+	cellName  map[*value]string // lazily created struct cells -> access path (deterministic naming)
+	anon      int
+	owner     map[*value]*lazyIface // node cell -> the lazy interface it was resolved from
+	focus     map[string]bool       // if set: allowed go/ast node kinds (tag universe of the harness)
 }
 
-func newLazyState(p *Path) *lazyState { return &lazyState{p: p} }
+func newLazyState(p *Path) *lazyState {
+	return &lazyState{p: p, basicKind: map[*value]*Term{}, cellName: map[*value]string{}, owner: map[*value]*lazyIface{}}
+}
 
 // lazyPending marks a cell whose content has not been read yet.
 type lazyPending struct {
 	path  string
 	depth int
+	key   string // spec key of the field this cell is ("pkg.Type.Field"), "" for roots/elements
+	prot  bool   // created inside a protected object
+	root  bool
 }
 
 type lazyIface struct {
-	path string
+	path     string
+	depth    int
+	static   types.Type   // static interface type
+	cands    []types.Type // remaining candidate dynamic types (concrete)
+	mayNil   bool
+	prot     bool
+	resolved *iface
+	posTerm  *Term // symbolic Pos() answered before resolution
+	endTerm  *Term
 }
 
-type lazySlice struct {
-	path string
+type lazySlice struct{ path string }
+
+type lazyMap struct {
+	path  string
+	depth int
+	elemT types.Type
+	prot  bool
+	memo  map[value]*gent // per key identity
+	order []value
 }
 
-type lazyMap struct{}
+// ---------------------------------------------------------------------------
+// candidate universes
+
+var (
+	implMu    sync.Mutex
+	implCache = map[string][]types.Type{}
+)
+
+// implementers lists the concrete types (T or *T for named T in the
+// interface's package) whose method set satisfies the interface.
+func (i *interpreter) implementers(it types.Type) []types.Type {
+	key := it.String()
+	implMu.Lock()
+	defer implMu.Unlock()
+	if c, ok := implCache[key]; ok {
+		return c
+	}
+	iface, ok := it.Underlying().(*types.Interface)
+	if !ok {
+		return nil
+	}
+	var pkg *types.Package
+	if n, ok := it.(*types.Named); ok {
+		pkg = n.Obj().Pkg()
+	}
+	var out []types.Type
+	if pkg != nil {
+		names := pkg.Scope().Names()
+		sort.Strings(names)
+		for _, name := range names {
+			tn, ok := pkg.Scope().Lookup(name).(*types.TypeName)
+			if !ok || tn.IsAlias() {
+				continue
+			}
+			named, ok := tn.Type().(*types.Named)
+			if !ok || named.TypeParams().Len() > 0 {
+				continue
+			}
+			if _, isIface := named.Underlying().(*types.Interface); isIface {
+				continue
+			}
+			if types.Implements(named, iface) {
+				out = append(out, named)
+			} else if p := types.NewPointer(named); types.Implements(p, iface) {
+				out = append(out, p)
+			}
+		}
+	}
+	implCache[key] = out
+	return out
+}
+
+func typeShort(t types.Type) string {
+	s := t.String()
+	return s
+}
+
+func (i *interpreter) universeFor(it types.Type, depth int) []types.Type {
+	spec := i.program.Lazy
+	all := i.implementers(it)
+	key := it.String()
+	pick := func(names []string) []types.Type {
+		var out []types.Type
+		for _, t := range all {
+			for _, n := range names {
+				if t.String() == n {
+					out = append(out, t)
+				}
+			}
+		}
+		return out
+	}
+	maxDepth := i.path.ex.opts.bound("K", 3)
+	if depth >= maxDepth {
+		if spec != nil {
+			if l, ok := spec.Leaf[key]; ok {
+				return pick(l)
+			}
+		}
+		return nil
+	}
+	if spec != nil {
+		if u, ok := spec.Universe[key]; ok {
+			return pick(u)
+		}
+	}
+	if f := i.path.lz.focus; f != nil && strings.HasPrefix(key, "go/ast.") {
+		var out []types.Type
+		for _, t := range all {
+			if f[t.String()] {
+				out = append(out, t)
+			}
+		}
+		return out
+	}
+	return all
+}
+
+// ---------------------------------------------------------------------------
+// materialisation
+
+func specKey(owner types.Type, field string) string {
+	if n, ok := owner.(*types.Named); ok && n.Obj().Pkg() != nil {
+		return n.Obj().Pkg().Path() + "." + n.Obj().Name() + "." + field
+	}
+	return owner.String() + "." + field
+}
+
+func namedString(t types.Type) string {
+	if n, ok := t.(*types.Named); ok && n.Obj().Pkg() != nil {
+		return n.Obj().Pkg().Path() + "." + n.Obj().Name()
+	}
+	return t.String()
+}
+
+// note records a structural decision of lazy initialisation (dynamic type,
+// nil-ness, length) in the path's model so that counterexamples can be realised.
+func (i *interpreter) note(key string, val string) {
+	p := i.path
+	if p.extraModel == nil {
+		p.extraModel = map[string]ModelVal{}
+	}
+	p.extraModel[key] = ModelVal{S: SStr, Str: val}
+}
+
+// newLazyStruct creates the structure for struct type T with all fields pending.
+func (i *interpreter) newLazyStruct(T types.Type, path string, depth int, prot bool) structure {
+	if n, ok := T.(*types.Named); ok && n.Obj().Pkg() != nil && n.Obj().Pkg().Path() != "go/ast" && n.Obj().Name() != "Info" {
+		// go/types objects cache internally (lazy resolution): only syntax and the Info tables are write-protected
+		prot = false
+	}
+	st := T.Underlying().(*types.Struct)
+	s := make(structure, st.NumFields())
+	for k := 0; k < st.NumFields(); k++ {
+		f := st.Field(k)
+		s[k] = &lazyPending{path: path + "." + f.Name(), depth: depth, key: specKey(T, f.Name()), prot: prot}
+	}
+	if prot {
+		for k := range s {
+			i.protected[&s[k]] = path + "." + st.Field(k).Name()
+		}
+		cells := s
+		i.path.logUndo(func() {
+			for k := range cells {
+				delete(i.protected, &cells[k])
+			}
+		})
+	}
+	return s
+}
 
 func (i *interpreter) materialise(p *lazyPending, T types.Type) value {
-	panic(engineError{"lazy initialisation not built yet"})
+	spec := i.program.Lazy
+	path := i.path
+	if spec != nil && spec.AlwaysNil[p.key] {
+		return zero(T)
+	}
+	tn := namedString(T)
+	switch tn {
+	case "go/token.Pos":
+		t := path.Fresh(p.path, SInt)
+		lo := int64(1)
+		if spec != nil && spec.OptPos[p.key] {
+			lo = 0
+		}
+		path.Assume(And(Ge(t, IntLit(lo)), Le(t, IntLit(1<<30))))
+		return sym{t, types.Int}
+	case "go/token.FileSet", "sync.Mutex", "sync.RWMutex":
+		return zero(T)
+	}
+	switch U := T.Underlying().(type) {
+	case *types.Basic:
+		k := basicKind(T)
+		switch {
+		case k == types.Bool:
+			return sym{path.Fresh(p.path, SBool), types.Bool}
+		case k == types.String:
+			t := path.Fresh(p.path, SStr)
+			path.Assume(Le(StrLen(t), IntLit(int64(path.ex.opts.bound("strlen", 12)))))
+			if spec != nil {
+				if re, ok := spec.StringRe[p.key]; ok {
+					m, err := MatchTerm(re, t)
+					if err != nil {
+						panic(engineError{"lazy string constraint: " + err.Error()})
+					}
+					path.Assume(m)
+				}
+			}
+			return sym{t, types.String}
+		case isIntKind(k):
+			t := path.Fresh(p.path, SInt)
+			if spec != nil {
+				if set, ok := spec.IntSet[p.key]; ok {
+					alts := TFalse
+					for _, v := range set {
+						alts = Or(alts, Eq(t, IntLit(v)))
+					}
+					path.Assume(alts)
+					return sym{t, k}
+				}
+			}
+			lo, hi := kindRange(k)
+			path.Assume(And(Ge(t, BigLit(lo)), Le(t, BigLit(hi))))
+			return sym{t, k}
+		case k == types.Float64 || k == types.Float32:
+			return zero(T)
+		}
+		return zero(T)
+	case *types.Pointer:
+		nullable := spec == nil || spec.Nullable[p.key] || p.key == ""
+		if p.root {
+			nullable = false
+		}
+		maxDepth := path.ex.opts.bound("K", 3)
+		if _, isStruct := U.Elem().Underlying().(*types.Struct); !isStruct {
+			return zero(T)
+		}
+		if nullable {
+			if p.depth > maxDepth {
+				i.note(p.path+"#nil", "1")
+				return zero(T)
+			}
+			if path.choose(2) == 0 {
+				i.note(p.path+"#nil", "1")
+				return zero(T)
+			}
+		}
+		i.note(p.path+"#nil", "0")
+		cell := new(value)
+		*cell = i.newLazyStruct(U.Elem(), p.path, p.depth+1, p.prot)
+		i.path.lz.cellName[cell] = p.path
+		i.afterNewStruct(U.Elem(), cell, p)
+		return cell
+	case *types.Interface:
+		nullable := spec == nil || spec.Nullable[p.key]
+		if p.root {
+			nullable = false
+		}
+		cands := i.universeFor(T, p.depth)
+		l := &lazyIface{path: p.path, depth: p.depth, static: T, cands: cands, mayNil: nullable, prot: p.prot}
+		if len(cands) == 0 {
+			if !nullable {
+				// no way to build a value here: the path is outside the explored universe
+				path.reached["bound:depth-cut"] = true
+				panic(pathPruned{"depth bound"})
+			}
+			return iface{}
+		}
+		return l
+	case *types.Slice:
+		lo := 0
+		if spec != nil {
+			lo = spec.MinLen[p.key]
+		}
+		hi := path.ex.opts.bound("B", 2)
+		if p.depth > path.ex.opts.bound("K", 3) {
+			hi = lo
+		}
+		if hi < lo {
+			hi = lo
+		}
+		n := lo + path.choose(hi-lo+1)
+		i.note(p.path+"#len", fmt.Sprint(n))
+		if n == 0 {
+			return []value(nil)
+		}
+		sl := make([]value, n)
+		for k := range sl {
+			sl[k] = &lazyPending{path: fmt.Sprintf("%s[%d]", p.path, k), depth: p.depth, key: p.key + "[]", prot: p.prot}
+		}
+		if p.prot {
+			for k := range sl {
+				i.protected[&sl[k]] = fmt.Sprintf("%s[%d]", p.path, k)
+			}
+			cells := sl
+			path.logUndo(func() {
+				for k := range cells {
+					delete(i.protected, &cells[k])
+				}
+			})
+		}
+		return sl
+	case *types.Map:
+		m := &gmap{kt: U.Key(), idx: map[value]*gent{}}
+		m.lazy = &lazyMap{path: p.path, depth: p.depth, elemT: U.Elem(), prot: p.prot, memo: map[value]*gent{}}
+		if p.prot {
+			i.protected[m] = p.path
+			path.logUndo(func() { delete(i.protected, m) })
+		}
+		return m
+	case *types.Struct:
+		return i.newLazyStruct(T, p.path, p.depth, p.prot)
+	case *types.Array:
+		a := make(array, U.Len())
+		for k := range a {
+			a[k] = &lazyPending{path: fmt.Sprintf("%s[%d]", p.path, k), depth: p.depth, prot: p.prot}
+		}
+		return a
+	case *types.Signature, *types.Chan:
+		return zero(T)
+	}
+	panic(engineError{fmt.Sprintf("cannot lazily initialise %s", T)})
 }
 
-func (l *lazyIface) resolve(i *interpreter) iface { panic(engineError{"lazy iface"}) }
-func (l *lazyIface) equalsT(i *interpreter, t types.Type, y value) *Term {
-	panic(engineError{"lazy iface"})
+// afterNewStruct applies type-specific invariants to a freshly created lazy struct.
+func (i *interpreter) afterNewStruct(T types.Type, cell *value, p *lazyPending) {
+	if namedString(T) == "go/types.Basic" {
+		// (kind, info, name) are tied together as in the table go/types.Typ
+		st := (*cell).(structure)
+		k := i.path.Fresh(p.path+".kind", SInt)
+		i.path.Assume(And(Ge(k, IntLit(0)), Le(k, IntLit(int64(types.UntypedNil)))))
+		info := IntLit(0)
+		name := StrLit("invalid type")
+		for kind := types.Invalid; kind <= types.UntypedNil; kind++ {
+			b := types.Typ[kind]
+			info = Ite(Eq(k, IntLit(int64(kind))), IntLit(int64(b.Info())), info)
+			name = Ite(Eq(k, IntLit(int64(kind))), StrLit(b.Name()), name)
+		}
+		sst := T.Underlying().(*types.Struct)
+		for f := 0; f < sst.NumFields(); f++ {
+			switch sst.Field(f).Name() {
+			case "kind":
+				st[f] = sym{k, types.Int}
+			case "info":
+				st[f] = mkval(info, types.Int)
+			case "name":
+				st[f] = mkval(name, types.String)
+			}
+		}
+		i.path.lz.basicKind[cell] = k
+	}
 }
+
+// ---------------------------------------------------------------------------
+// lazy interfaces
+
+func (l *lazyIface) decideNil(i *interpreter) bool {
+	if l.resolved != nil {
+		return l.resolved.t == nil
+	}
+	if !l.mayNil {
+		return false
+	}
+	if len(l.cands) == 0 {
+		l.resolved = &iface{}
+		i.note(l.path+"#nil", "1")
+		return true
+	}
+	if i.path.choose(2) == 0 {
+		l.resolved = &iface{}
+		i.note(l.path+"#nil", "1")
+		return true
+	}
+	l.mayNil = false
+	return false
+}
+
+func (l *lazyIface) become(i *interpreter, t types.Type) iface {
+	i.note(l.path+"#type", t.String())
+	var v value
+	switch U := t.Underlying().(type) {
+	case *types.Pointer:
+		cell := new(value)
+		*cell = i.newLazyStruct(U.Elem(), l.path, l.depth+1, l.prot)
+		i.path.lz.cellName[cell] = l.path
+		i.path.lz.owner[cell] = l
+		i.afterNewStruct(U.Elem(), cell, &lazyPending{path: l.path, depth: l.depth})
+		v = cell
+	case *types.Struct:
+		v = i.newLazyStruct(t, l.path, l.depth+1, l.prot)
+	default:
+		pend := &lazyPending{path: l.path, depth: l.depth + 1, prot: l.prot}
+		v = i.materialise(pend, t)
+	}
+	r := iface{t: t, v: v}
+	l.resolved = &r
+	l.cands = nil
+	// tie Pos()/End() answered before resolution to the real node
+	if l.posTerm != nil || l.endTerm != nil {
+		for _, m := range []struct {
+			name string
+			t    *Term
+		}{{"Pos", l.posTerm}, {"End", l.endTerm}} {
+			if m.t == nil {
+				continue
+			}
+			if fn := i.lookupMethodSafe(t, m.name); fn != nil {
+				real := call(i, i.cur, 0, fn, []value{v})
+				i.path.Assume(Eq(m.t, mustTerm(real)))
+			}
+		}
+	}
+	return r
+}
+
+// resolve decides the dynamic type completely.
+func (l *lazyIface) resolve(i *interpreter) iface {
+	if l.resolved != nil {
+		return *l.resolved
+	}
+	if l.decideNil(i) {
+		return iface{}
+	}
+	if len(l.cands) == 0 {
+		panic(pathPruned{"no candidate type"})
+	}
+	c := i.path.choose(len(l.cands))
+	return l.become(i, l.cands[c])
+}
+
+func (l *lazyIface) equalsT(i *interpreter, t types.Type, y value) *Term {
+	switch y := y.(type) {
+	case iface:
+		if y.t == nil {
+			return BoolLit(l.decideNil(i))
+		}
+		r := l.resolve(i)
+		return equalsT(t, r, y)
+	case *lazyIface:
+		if y == l {
+			return TTrue
+		}
+		ln, yn := l.decideNil(i), y.decideNil(i)
+		if ln || yn {
+			return BoolLit(ln && yn)
+		}
+		// distinct lazy objects are distinct fresh nodes/objects
+		return equalsT(t, l.resolve(i), y.resolve(i))
+	}
+	panic(engineError{fmt.Sprintf("lazyIface == %T", y)})
+}
+
+// typeAssertLazy narrows the candidate set instead of resolving.
+func (i *interpreter) typeAssertLazy(instr *ssa.TypeAssert, l *lazyIface) value {
+	if l.resolved != nil {
+		return typeAssert(i, instr, *l.resolved)
+	}
+	fail := func(msg string) value {
+		if !instr.CommaOk {
+			panic(targetPanic{v: msg, stack: i.stack()})
+		}
+		return tuple{zero(instr.AssertedType), false}
+	}
+	if l.decideNil(i) {
+		return fail(fmt.Sprintf("interface conversion: interface is nil, not %s", instr.AssertedType))
+	}
+	if idst, ok := instr.AssertedType.Underlying().(*types.Interface); ok {
+		var yes, no []types.Type
+		for _, c := range l.cands {
+			if types.Implements(c, idst) {
+				yes = append(yes, c)
+			} else {
+				no = append(no, c)
+			}
+		}
+		pick := 0
+		switch {
+		case len(yes) == 0:
+			pick = 1
+		case len(no) == 0:
+			pick = 0
+		default:
+			pick = i.path.choose(2)
+		}
+		if pick == 0 {
+			l.cands = yes
+			i.noteCands(l)
+			if instr.CommaOk {
+				return tuple{l, true}
+			}
+			return l
+		}
+		l.cands = no
+		i.noteCands(l)
+		return fail(fmt.Sprintf("interface conversion: value does not implement %s", instr.AssertedType))
+	}
+	idx := -1
+	for k, c := range l.cands {
+		if types.Identical(c, instr.AssertedType) {
+			idx = k
+		}
+	}
+	if idx < 0 {
+		return fail(fmt.Sprintf("interface conversion: interface is not %s", instr.AssertedType))
+	}
+	pick := 0
+	if len(l.cands) > 1 {
+		pick = i.path.choose(2)
+	}
+	if pick == 0 {
+		r := l.become(i, l.cands[idx])
+		if instr.CommaOk {
+			return tuple{r.v, true}
+		}
+		return r.v
+	}
+	l.cands = append(append([]types.Type(nil), l.cands[:idx]...), l.cands[idx+1:]...)
+	i.noteCands(l)
+	return fail(fmt.Sprintf("interface conversion: interface is not %s", instr.AssertedType))
+}
+
+// noteCands records the remaining candidate types of a narrowed lazy interface.
+func (i *interpreter) noteCands(l *lazyIface) {
+	var names []string
+	for _, c := range l.cands {
+		names = append(names, c.String())
+	}
+	i.note(l.path+"#cands", strings.Join(names, ","))
+}
+
+// lazyInvoke handles method calls on an unresolved lazy interface that can be
+// answered without deciding the dynamic type.
 func (i *interpreter) lazyInvoke(fr *frame, l *lazyIface, call *ssa.CallCommon) (value, bool) {
+	if l.resolved != nil {
+		return nil, false
+	}
+	if strings.HasPrefix(l.static.String(), "go/ast.") {
+		switch call.Method.Name() {
+		case "Pos", "End":
+			if l.decideNil(i) {
+				return nil, false
+			}
+			tp := &l.posTerm
+			if call.Method.Name() == "End" {
+				tp = &l.endTerm
+			}
+			if *tp == nil {
+				t := i.path.Fresh(l.path+"#"+call.Method.Name(), SInt)
+				i.path.Assume(And(Ge(t, IntLit(1)), Le(t, IntLit(1<<30))))
+				*tp = t
+			}
+			return sym{*tp, types.Int}, true
+		}
+	}
 	return nil, false
 }
-func (l *lazySlice) force(i *interpreter) []value                  { panic(engineError{"lazy slice"}) }
-func (l *lazySlice) isNil(i *interpreter) bool                     { panic(engineError{"lazy slice"}) }
-func (l *lazySlice) indexAddr(i *interpreter, idx value) value     { panic(engineError{"lazy slice"}) }
-func (l *lazyMap) lookup(i *interpreter, m *gmap, k value) (value, bool) { panic(engineError{"lazy map"}) }
+
+func (l *lazySlice) force(i *interpreter) []value              { panic(engineError{"lazy slice"}) }
+func (l *lazySlice) isNil(i *interpreter) bool                 { panic(engineError{"lazy slice"}) }
+func (l *lazySlice) indexAddr(i *interpreter, idx value) value { panic(engineError{"lazy slice"}) }
+
+// ---------------------------------------------------------------------------
+// lazy maps: keyed by identity (pointers / interfaces holding pointers), answers memoised
+
+func (i *interpreter) identityKey(k value) (value, bool) {
+	switch k := k.(type) {
+	case *value:
+		if l, ok := i.path.lz.owner[k]; ok {
+			return l, true
+		}
+		return k, true
+	case iface:
+		if p, ok := k.v.(*value); ok {
+			if l, ok := i.path.lz.owner[p]; ok {
+				return l, true
+			}
+			return p, true
+		}
+		if k.t == nil {
+			return nil, true
+		}
+	case *lazyIface:
+		if k.resolved != nil && k.resolved.t == nil {
+			return nil, true
+		}
+		return k, true
+	case string, int:
+		return k, true
+	}
+	return nil, false
+}
+
+func (lm *lazyMap) lookup(i *interpreter, m *gmap, k value) (value, bool) {
+	if li, ok := k.(*lazyIface); ok {
+		if li.decideNil(i) {
+			return nil, false
+		}
+	}
+	id, ok := i.identityKey(k)
+	if !ok {
+		panic(engineError{fmt.Sprintf("lazy map lookup with key %T", k)})
+	}
+	if id == nil {
+		return nil, false
+	}
+	if e, ok := lm.memo[id]; ok {
+		if e == nil {
+			return nil, false
+		}
+		return e.val, true
+	}
+	// present or absent?
+	if i.path.choose(2) == 1 {
+		lm.memo[id] = nil
+		i.note(fmt.Sprintf("%s[%s]#present", lm.path, i.describeKey(k)), "0")
+		return nil, false
+	}
+	i.note(fmt.Sprintf("%s[%s]#present", lm.path, i.describeKey(k)), "1")
+	pend := &lazyPending{path: fmt.Sprintf("%s[%s]", lm.path, i.describeKey(k)), depth: lm.depth, prot: lm.prot, root: true}
+	v := i.materialise(pend, lm.elemT)
+	e := &gent{key: k, val: v}
+	lm.memo[id] = e
+	return v, true
+}
+
+func (i *interpreter) describeKey(k value) string {
+	lz := i.path.lz
+	name := func(p *value) string {
+		if n, ok := lz.cellName[p]; ok {
+			return n
+		}
+		lz.anon++
+		n := fmt.Sprintf("obj%d", lz.anon)
+		lz.cellName[p] = n
+		return n
+	}
+	switch k := k.(type) {
+	case iface:
+		if p, ok := k.v.(*value); ok && p != nil {
+			return name(p)
+		}
+	case *value:
+		if k != nil {
+			return name(k)
+		}
+	case *lazyIface:
+		return k.path
+	}
+	return showValue(k)
+}
+
+var _ = token.NoPos
+
+// ---------------------------------------------------------------------------
+// tag universe per harness: R ∪ Base ∪ opaque (DESIGN 2.1)
+
+var (
+	focusMu    sync.Mutex
+	focusCache = map[string]map[string]bool{}
+)
+
+var baseKinds = []string{"*go/ast.Ident", "*go/ast.BasicLit", "*go/ast.CallExpr", "*go/ast.ParenExpr", "*go/ast.BlockStmt",
+	"*go/ast.ExprStmt", "*go/ast.ReturnStmt", "*go/ast.AssignStmt", "*go/ast.BadExpr", "*go/ast.BadStmt", "*go/ast.BadDecl",
+	"*go/ast.FuncDecl", "*go/ast.GenDecl", "*go/ast.ValueSpec", "*go/ast.TypeSpec", "*go/ast.ImportSpec", "*go/ast.SelectorExpr"}
+
+func ownedPackage(p *ssa.Package) bool {
+	if p == nil || p.Pkg == nil {
+		return false
+	}
+	path := p.Pkg.Path()
+	return strings.HasPrefix(path, "github.com/go-critic/go-critic") || strings.HasPrefix(path, "github.com/go-toolsmith/") ||
+		strings.HasPrefix(path, "github.com/quasilyte/")
+}
+
+// namedKinds computes the set of go/ast node types that code reachable from
+// the methods of T (within go-critic / go-toolsmith code) names in a type
+// assertion, type switch or composite literal.
+func (i *interpreter) namedKinds(T types.Type) map[string]bool {
+	key := T.String()
+	focusMu.Lock()
+	defer focusMu.Unlock()
+	if r, ok := focusCache[key]; ok {
+		return r
+	}
+	res := map[string]bool{}
+	seen := map[*ssa.Function]bool{}
+	var work []*ssa.Function
+	add := func(f *ssa.Function) {
+		if f != nil && !seen[f] && f.Blocks != nil && (ownedPackage(f.Pkg) || (f.Pkg == nil && f.Origin() != nil && ownedPackage(f.Origin().Pkg))) {
+			seen[f] = true
+			work = append(work, f)
+		}
+	}
+	ms := i.prog.MethodSets.MethodSet(T)
+	for k := 0; k < ms.Len(); k++ {
+		add(i.prog.MethodValue(ms.At(k)))
+	}
+	note := func(t types.Type) {
+		if p, ok := t.(*types.Pointer); ok {
+			if n, ok := p.Elem().(*types.Named); ok && n.Obj().Pkg() != nil && n.Obj().Pkg().Path() == "go/ast" {
+				res[t.String()] = true
+			}
+		}
+	}
+	for len(work) > 0 {
+		f := work[len(work)-1]
+		work = work[:len(work)-1]
+		for _, af := range f.AnonFuncs {
+			add(af)
+		}
+		for _, b := range f.Blocks {
+			for _, ins := range b.Instrs {
+				switch ins := ins.(type) {
+				case *ssa.TypeAssert:
+					note(ins.AssertedType)
+				case *ssa.Alloc:
+					note(ins.Type())
+				case *ssa.MakeInterface:
+					note(ins.X.Type())
+				case ssa.CallInstruction:
+					if c := ins.Common().StaticCallee(); c != nil {
+						add(c)
+					}
+				}
+				if mc, ok := ins.(*ssa.MakeClosure); ok {
+					if fn, ok := mc.Fn.(*ssa.Function); ok {
+						add(fn)
+					}
+				}
+			}
+		}
+	}
+	focusCache[key] = res
+	return res
+}
+
+func init() {
+	// FocusOn(v): restrict the dynamic types of lazy AST interfaces to the node
+	// kinds the code behind v can tell apart, plus the base kinds and the opaque leaves.
+	reg(rtPkg+".FocusOn", func(fr *frame, args []value) value {
+		it := fr.i.asIface(args[0])
+		if it.t == nil {
+			return nil
+		}
+		kinds := map[string]bool{}
+		for k := range fr.i.namedKinds(it.t) {
+			kinds[k] = true
+		}
+		for _, b := range baseKinds {
+			kinds[b] = true
+		}
+		fr.i.path.lz.focus = kinds
+		return nil
+	})
+}
